@@ -929,6 +929,28 @@ pub fn gen_c09(rng: &Rng, tier: Tier) -> C09Scn {
         ops = ops_next_to_end(k);
         profile = "long_all_fit".into();
     }
+    if rng.chance(1, 10) && input.len() < 4000 {
+        // a policy that refuses its first 1..3 requests and then agrees (a budget raised by
+        // somebody else): every refusal comes back as BufferLimit, and the reader has to be exactly
+        // where it was when the policy finally agrees - by repeated next() calls, or inside one
+        // owned-record iterator that is polled on after the errors
+        cfg.policy = PolicySpec::RefuseFirst(rng.range(1, 4));
+        let lens = rough_record_lens(&input);
+        if !lens.is_empty() {
+            // smaller than some record, so that growth is needed
+            cfg.cap = (*rng.pick(&lens) / rng.range(1, 3)).max(3);
+        }
+        let n = model::build(fmt, &input).items.len();
+        ops = if rng.chance(1, 2) {
+            (0..2 * n + 8).map(|_| Op::Next).collect()
+        } else {
+            let k = rng.range(0, n + 1);
+            let mut o: Vec<Op> = (0..k).map(|_| Op::Next).collect();
+            o.push(Op::Drain);
+            o
+        };
+        profile.push_str("/refuse_first");
+    }
     C09Scn { read: Some(ReadScn { fmt, input, cfgs: vec![cfg], ops, mon: Monitors::default(), profile }), arith: None }
 }
 
@@ -952,7 +974,7 @@ pub fn run_c09(scn: &C09Scn, st: &mut Stats) -> RunResult {
     if let Some((spec, sizes)) = &scn.arith {
         st.count("step.policy_arithmetic_points", sizes.len() as u64);
         for &cur in sizes {
-            let got = policy_eval(spec, 0, cur);
+            let got = policy_eval(spec, 0, 0, cur);
             let want = arith_expect(spec, cur);
             if got != want {
                 v.push(Violation::new("C09.policy_arithmetic", format!("{:?}.grow_to({}) = {:?}, documented rule gives {:?}", spec, cur, got, want)));
